@@ -152,21 +152,30 @@ def discharge(hyps, goal, timeout_ms=20000, use_cvc5=False, seed=0, want_model=T
         xi, yi = z3.Ints('cm_i cm_j')
         fs_struct = fs_struct + [z3.ForAll([xr, yr], MUL_R(xr, yr) == MUL_R(yr, xr), patterns=[MUL_R(xr, yr)]),
                                  z3.ForAll([xi, yi], MUL_I(xi, yi) == MUL_I(yi, xi), patterns=[MUL_I(xi, yi)])]
-        # small portfolio (different seeds, growing budgets): E-matching luck varies a lot with the seed, so a cheap
-        # first attempt with another seed removes most of the run-to-run variance
-        for k, frac in enumerate((0.08, 0.3, 0.6)):
-            v, dt, _, why = _solve(fs_struct, max(300, timeout_ms * frac), seed + 7 * k)
+    # interleaved portfolio (encodings x seeds x growing budgets): either encoding may be the lucky one, and E-matching
+    # luck varies a lot with the seed, so cheap early attempts remove most of the run-to-run variance
+    plan = [('alg', 0.1, 0)]
+    if ab.used:
+        plan += [('str', 0.08, 0), ('str', 0.3, 7), ('alg', 0.35, 11), ('str', 0.6, 14), ('alg', 1.0, 22)]
+    else:
+        plan += [('alg', 0.35, 11), ('alg', 1.0, 22)]
+    v, model, why = 'unknown', None, ''
+    struct_sat = False
+    for enc, frac, ds in plan:
+        if enc == 'str':
+            if struct_sat:
+                continue
+            v_, dt, _, why_ = _solve(fs_struct, max(300, timeout_ms * frac), seed + ds)
             total += dt
-            if v == 'unsat':
+            if v_ == 'unsat':
                 return dict(verdict='proved', backend='z3/structural', time_s=total, model=None, reason='')
-            if v == 'sat':
+            if v_ == 'sat':
+                struct_sat = True
+        else:
+            v, dt, model, why = _solve(fs, max(300, timeout_ms * frac), seed + ds)
+            total += dt
+            if v != 'unknown':
                 break
-    # 2. algebraic encoding
-    for k, frac in enumerate((0.1, 0.35, 1.0)):
-        v, dt, model, why = _solve(fs, max(300, timeout_ms * frac), seed + 11 * k)
-        total += dt
-        if v != 'unknown':
-            break
     if v == 'unsat':
         return dict(verdict='proved', backend='z3/algebraic' if ab.used else 'z3', time_s=total, model=None, reason='')
     if v == 'sat':
